@@ -263,7 +263,7 @@ Lemma step_Inv_local t s s' x : Inv s -> nth_error (thrs s) t = Some x ->
   match pcv x with
   | IncRdOwner | IncLoad | DecRdOwner | DecLoad | DecFastLoad | EnqLoad | MrgLoad _ _
   | UnqRdOwner | UnqOwnRdBiased | UnwRdOwner | UnwNoneLoad | UnwOwnRdBiased
-  | CntLoad | CntRdOwner | CntRdBiased => True
+  | CntLoad | CntRdOwner | CntRdBiased | UmRdOwner | UmOwnRdBiased => True
   | _ => False
   end ->
   step fixed_cfg t s = Some s' -> Inv s'.
@@ -290,6 +290,9 @@ Proof.
   - (* CntRdOwner *) destruct (owner s) as [o|] eqn:O; [destruct (Nat.eqb o t) eqn:E; [apply Nat.eqb_eq in E; subst o|]|];
       LOC I Hx Hp F Hs.
   - (* CntRdBiased *) LOC I Hx Hp F Hs.
+  - (* UmRdOwner *) destruct (owner s) as [o|] eqn:O; [destruct (Nat.eqb o t) eqn:E; [apply Nat.eqb_eq in E; subst o|]|];
+      LOC I Hx Hp F Hs.
+  - (* UmOwnRdBiased *) destruct (biased s =? 1) eqn:B; [apply Z.eqb_eq in B|]; LOC I Hx Hp F Hs.
 Qed.
 
 
@@ -508,7 +511,7 @@ Definition covered (p : pc) : bool :=
   | DecRdOwner | DecFast | DecFastUnown | DecFastLoad | DecFastCas _ | DecLoad
   | EnqLoad | MrgLoad _ _
   | UnqRdOwner | UnqOwnRdBiased | UnwRdOwner | UnwNoneLoad | UnwOwnRdBiased
-  | CntLoad | CntRdOwner | CntRdBiased => true
+  | CntLoad | CntRdOwner | CntRdBiased | UmRdOwner | UmOwnRdBiased => true
   | _ => false
   end.
 
